@@ -154,6 +154,8 @@ def sysPrlimitSet (k : Kernel) (who res soft hard : Nat) : Except Errno Kernel :
 /-- what a native function can raise -/
 inductive NErr
   | os (e : Errno)
+  /-- `PyErr_SetFromErrno` with an errno value the simulated kernel never produces (a stale one) -/
+  | osRaw (n : Nat)
   | valueError
   | overflowError
   /-- C-level undefined behaviour (signed shift overflow in `IOPRIO_PRIO_VALUE`): property C17 -/
@@ -174,6 +176,64 @@ def cextGetpriority (k : Kernel) (pid : Nat) : Except NErr Int := ofSys (sysGetp
 def cextSetpriority (k : Kernel) (pid : Nat) (v : Int) : Except NErr Kernel :=
   if fitsCInt v then ofSys (sysSetpriority k pid v) else .error .overflowError
 
+/-! #### the errno protocol of the native getters
+
+  `getpriority(2)`, `ioprio_get(2)` and `sched_getaffinity(2)` report failure by returning −1 and
+  writing `errno`; on success `errno` is left as it was — possibly non-zero from an unrelated
+  earlier failure in the same thread. The value of `errno` on entry is therefore an INPUT of the
+  native layer. Whether the wrapper clears it and which test it applies are translator facts. -/
+
+/-- how a wrapper decides that the libc call failed -/
+inductive ErrTest
+  /-- `if (errno != 0)` -/
+  | errnoOnly
+  /-- `if (r == -1 && errno != 0)` -/
+  | sentinelAndErrno
+  /-- `if (r == -1)` (for `sched_getaffinity`: `!= 0`) -/
+  | sentinelOnly
+  deriving DecidableEq, Repr
+
+def ErrTest.ofCode : Nat → ErrTest
+  | 0 => .errnoOnly
+  | 1 => .sentinelAndErrno
+  | _ => .sentinelOnly
+
+structure GetterProto where
+  /-- `errno = 0;` is executed before the libc call -/
+  clears : Bool
+  test : ErrTest
+  deriving DecidableEq, Repr
+
+def errnoCode : Errno → Nat
+  | .EPERM => 1
+  | .ESRCH => 3
+  | .EINVAL => 22
+
+/-- a libc call with the −1 sentinel: (return value, errno afterwards) -/
+def libcCall (r : Except Errno Int) (errnoBefore : Nat) : Int × Nat :=
+  match r with
+  | .ok v => (v, errnoBefore)
+  | .error e => (-1, errnoCode e)
+
+def callFailed (t : ErrTest) (r : Int) (e : Nat) : Bool :=
+  match t with
+  | .errnoOnly => e != 0
+  | .sentinelAndErrno => r == -1 && e != 0
+  | .sentinelOnly => r == -1
+
+/-- `PyErr_SetFromErrno(PyExc_OSError)` with `errno = n` -/
+def nerrOfErrno (n : Nat) : NErr :=
+  if n = 1 then .os .EPERM else if n = 3 then .os .ESRCH else if n = 22 then .os .EINVAL else .osRaw n
+
+/-- a native getter around a sentinel call: (clear errno,) call, test, raise from errno or return -/
+def nativeGetter (p : GetterProto) (sys : Except Errno Int) (errnoIn : Nat) : Except NErr Int :=
+  let r := libcCall sys (if p.clears then 0 else errnoIn)
+  if callFailed p.test r.1 r.2 then .error (nerrOfErrno r.2) else .ok r.1
+
+/-- `_psutil_posix.getpriority(pid)` entered with `errno = errnoIn` -/
+def cextGetpriorityE (p : GetterProto) (k : Kernel) (pid : Nat) (errnoIn : Nat) : Except NErr Int :=
+  nativeGetter p (sysGetpriority k pid) errnoIn
+
 /-- `IOPRIO_PRIO_VALUE(class, data)` with the shift of the C source -/
 def ioprioPack (shift cls data : Nat) : Nat := (cls <<< shift) ||| data
 /-- `IOPRIO_PRIO_CLASS(mask)` / `IOPRIO_PRIO_DATA(mask)` -/
@@ -184,6 +244,13 @@ def cextIoprioGet (shift : Nat) (k : Kernel) (pid : Nat) : Except NErr (Nat × N
   match sysIoprioGet k pid with
   | .error e => .error (.os e)
   | .ok v => .ok (ioprioUnpack shift v)
+
+/-- `psutil_proc_ioprio_get` entered with `errno = errnoIn`: `ioprio_get` returns the value (≥ 0) or −1 -/
+def cextIoprioGetE (p : GetterProto) (shift : Nat) (k : Kernel) (pid : Nat) (errnoIn : Nat) :
+    Except NErr (Nat × Nat) :=
+  match nativeGetter p (match sysIoprioGet k pid with | .ok v => .ok (Int.ofNat v) | .error e => .error e) errnoIn with
+  | .error e => .error e
+  | .ok v => .ok (ioprioUnpack shift v.toNat)
 
 /-- an optional argument check in `psutil_proc_ioprio_set` before the packing:
     `if (ioclass < a || ioclass > b || iodata < c || iodata > d)` → ValueError, or
@@ -207,6 +274,16 @@ def cextIoprioSet (shift : Nat) (range : Option (Int × Int × Int × Int)) (ein
 /-- `psutil_proc_cpu_affinity_get`: the set bits of the mask, ascending -/
 def cextAffinityGet (k : Kernel) (pid : Nat) : Except NErr (List Nat) :=
   ofSys (sysSchedGetaffinity k pid)
+
+/-- `psutil_proc_cpu_affinity_get` entered with `errno = errnoIn`: `sched_getaffinity` returns 0 or −1,
+    the mask is an out-parameter -/
+def cextAffinityGetE (p : GetterProto) (k : Kernel) (pid : Nat) (errnoIn : Nat) : Except NErr (List Nat) :=
+  match nativeGetter p (match sysSchedGetaffinity k pid with | .ok _ => .ok 0 | .error e => .error e) errnoIn with
+  | .error e => .error e
+  | .ok _ =>
+    match sysSchedGetaffinity k pid with
+    | .ok m => .ok m
+    | .error e => .error (.os e)
 
 /-- glibc `CPU_SETSIZE`: `CPU_SET(v, &set)` is a no-op for `v` outside `0..1023` -/
 def cpuSetSize : Nat := 1024
@@ -296,11 +373,22 @@ structure Cfg where
   getSortedSet : Bool
   /-- the set form hands `list(set(cpus))` to the platform layer -/
   setDedup : Bool
+  /-- errno protocol of `_psutil_posix.c:psutil_posix_getpriority` -/
+  prioGet : GetterProto
+  /-- errno protocol of `proc.c:psutil_proc_ioprio_get` -/
+  ioprioGet : GetterProto
+  /-- errno protocol of `proc.c:psutil_proc_cpu_affinity_get` -/
+  affGet : GetterProto
+  /-- `cpu_affinity_set`: when the diagnosis loop finds no offending CPU, the kernel's EINVAL is
+      raised as ValueError (`fixes/C18-ineligible-valueerror.diff`) instead of being passed on -/
+  einvalValueError : Bool
 
 inductive Exc
   | valueError
   | overflowError
   | osError (e : Errno)
+  /-- an OSError carrying a stale errno value -/
+  | osRaw (n : Nat)
   | accessDenied (pid : Nat)
   | noSuchProcess (pid : Nat)
   | undefinedC
@@ -324,6 +412,7 @@ def wrapExc (pid : Nat) : NErr → Exc
   | .os .EPERM => .accessDenied pid
   | .os .ESRCH => .noSuchProcess pid
   | .os e => .osError e
+  | .osRaw n => if n = 13 then .accessDenied pid else .osRaw n     -- EACCES is a PermissionError too
   | .valueError => .valueError
   | .overflowError => .overflowError
   | .undefinedC => .undefinedC
@@ -455,5 +544,81 @@ def step (c : Cfg) (k : Kernel) (pid : Nat) : Req → Out × Kernel
   | .ionice (some cls) value => ioniceSet c k pid cls value
   | .cpuAffinity cpus => cpuAffinity c k pid cpus
   | .rlimit res limits => rlimitL c k pid res limits
+
+/-! ### 5. the same calls in an execution context
+
+  Two things that are not arguments of the call can reach the code: the value of the C `errno`
+  on entry of a native getter (left over from any earlier failed system call of the thread), and
+  — inside `Process.oneshot()` — the cached copy of `/proc/<pid>/status`, which may predate a
+  change of the affinity mask made inside the same block. The property says neither matters. -/
+
+structure Ctx where
+  /-- C `errno` of the calling thread when the native function is entered -/
+  errnoIn : Nat
+  /-- the affinity mask printed in the cached status file (`none`: the file is read now) -/
+  statusMask : Option (List Nat)
+
+/-- `_get_eligible_cpus()` on a status file showing the mask `m` -/
+def eligibleOfMask (k : Kernel) (m : List Nat) : List Nat :=
+  match statusRange m with
+  | some (a, b) => List.range' a (b + 1 - a)
+  | none => List.range k.ncpu
+
+def getEligibleCpusX (k : Kernel) (pid : Nat) : Option (List Nat) → Option (List Nat)
+  | none => getEligibleCpus k pid
+  | some m => some (eligibleOfMask k m)
+
+/-- `cpu_affinity_set` with `elig` = what `_get_eligible_cpus()` returns, and the optional
+    EINVAL → ValueError fall-through after the diagnosis loop -/
+def cpuAffinitySetWith (einvalVE : Bool) (elig : Option (List Nat)) (k : Kernel) (pid : Nat)
+    (cpus : List Int) : Out × Kernel :=
+  match cextAffinitySet k pid cpus with
+  | .ok k' => (.ok .none, k')
+  | .error e =>
+    if e = .valueError ∨ e = .os .EINVAL then
+      match elig with
+      | none => (.exc (.noSuchProcess pid), k)
+      | some eligible =>
+        if diagnose (List.range k.ncpu) eligible cpus then (.exc .valueError, k)
+        else if einvalVE = true ∧ e = .os .EINVAL then (.exc .valueError, k)
+        else (.exc (wrapExc pid e), k)
+    else (.exc (wrapExc pid e), k)
+
+def niceGetX (c : Cfg) (k : Kernel) (pid : Nat) (errnoIn : Nat) : Out × Kernel :=
+  match cextGetpriorityE c.prioGet k pid errnoIn with
+  | .ok v => (.ok (.int v), k)
+  | .error e => (.exc (wrapExc pid e), k)
+
+def ioniceGetX (c : Cfg) (k : Kernel) (pid : Nat) (errnoIn : Nat) : Out × Kernel :=
+  match cextIoprioGetE c.ioprioGet c.shift k pid errnoIn with
+  | .error e => (.exc (wrapExc pid e), k)
+  | .ok (cls, data) =>
+    if c.enumClasses.contains cls then (.ok (.ionice cls data), k)
+    else (.exc .valueError, k)
+
+def cpuAffinityX (c : Cfg) (k : Kernel) (pid : Nat) (x : Ctx) : Option (List Int) → Out × Kernel
+  | none =>
+    match cextAffinityGetE c.affGet k pid x.errnoIn with
+    | .ok l => (.ok (.cpus (if c.getSortedSet then sortedSet l else l)), k)
+    | .error e => (.exc (wrapExc pid e), k)
+  | some cpus =>
+    let elig := getEligibleCpusX k pid x.statusMask
+    if cpus.isEmpty then
+      match c.emptyAsksAll with
+      | some n => cpuAffinitySetWith c.einvalValueError elig k pid (dedup c ((List.range n).map Int.ofNat))
+      | none =>
+        match elig with
+        | none => (.exc (.noSuchProcess pid), k)
+        | some el => cpuAffinitySetWith c.einvalValueError elig k pid (dedup c (el.map Int.ofNat))
+    else cpuAffinitySetWith c.einvalValueError elig k pid (dedup c cpus)
+
+/-- one public call on `psutil.Process(pid)` made in the context `x` — what the driver runs -/
+def stepX (c : Cfg) (k : Kernel) (pid : Nat) (x : Ctx) : Req → Out × Kernel
+  | .nice none => niceGetX c k pid x.errnoIn
+  | .ionice none none => ioniceGetX c k pid x.errnoIn
+  | .ionice none (some _) =>
+    if c.valueWithoutClassRaises then (.exc .valueError, k) else ioniceGetX c k pid x.errnoIn
+  | .cpuAffinity cpus => cpuAffinityX c k pid x cpus
+  | req => step c k pid req
 
 end Psutil.C18
